@@ -333,8 +333,8 @@ def d5_idl_normalisation(ctx, obs):
     rule = 'C04-D5'
     merge_idx_rules(ctx, obs, rule)
     f = obs.func('_check_lists_equal')
-    t = unparse(f)
-    ok = 'groupby(' in t and 'next(g, True) and (not next(g, False))' in t
+    t = obs.text(f)
+    ok = 'groupby($$A)' in t and 'next(g, True) and (not next(g, False))' in t
     ctx.check(rule, 'obs.py:_check_lists_equal', ok, 'all elements equal <=> exactly one group', '_check_lists_equal differs')
     # N = sum of chain lengths, shape = len(idl) in the constructor
     f = obs.func('Obs.__init__')
